@@ -6,7 +6,9 @@
 # usage: run.sh [name-substring]
 #        run.sh --prop Cxx      only the expectations that concern that property (used by the thorough tier)
 export GOFLAGS=-mod=mod GOPROXY=off GOSUMDB=off GOTOOLCHAIN=local
-cd /verif
+# SELFTEST_REPO / SELFTEST_VERIF: run against frozen copies (so that work can go on in /repo and /verif meanwhile)
+R=${SELFTEST_REPO:-/repo}; V=${SELFTEST_VERIF:-/verif}
+cd $V
 onlyprop=""
 if [ "$1" = "--prop" ]; then onlyprop=$2; set -- ""; fi
 evd=/tmp/selftest-evidence${onlyprop:+-$onlyprop}-$$
@@ -19,8 +21,8 @@ for d in selftest/mutants/*/ seeded/*/; do
   if [ -n "$onlyprop" ] && ! grep -qw "$onlyprop" "$d/expect.txt"; then continue; fi
   [ -f "$d/superseded.txt" ] && { echo "SELFTEST $name: skipped ($(cut -c1-120 $d/superseded.txt))"; continue; }
   s=$(mktemp -d /tmp/selftest${onlyprop}.XXXX)
-  rsync -a --exclude .git /repo/ $s/
-  if ! (cd $s && patch -p1 -s < /verif/$d/patch.diff); then echo "SELFTEST $name: PATCH DOES NOT APPLY"; fail=1; rm -rf $s; continue; fi
+  rsync -a --exclude .git $R/ $s/
+  if ! (cd $s && patch -p1 -s < $V/$d/patch.diff); then echo "SELFTEST $name: PATCH DOES NOT APPLY"; fail=1; rm -rf $s; continue; fi
   if ! (cd $s && go build ./... >/dev/null 2>&1); then echo "SELFTEST $name: DOES NOT COMPILE"; fail=1; rm -rf $s; continue; fi
   while read -r prop want rest; do
     [ -z "$prop" ] && continue
@@ -31,12 +33,12 @@ for d in selftest/mutants/*/ seeded/*/; do
     n=$((n+1))
     if [ "$prop" = "harmless" ]; then
       for p in $want $rest; do
-        out=$(bin/govc check $p --repo $s --verif /verif --evidence-dir $evd 2>&1)
+        out=$(bin/govc check $p --repo $s --verif $V --evidence-dir $evd 2>&1)
         if echo "$out" | grep -q "^VIOLATION"; then echo "SELFTEST $name: FALSE ALARM on $p: $(echo "$out" | grep -m1 obligation)"; fail=1; else echo "SELFTEST $name: $p stays green (ok)"; fi
       done
       continue
     fi
-    out=$(bin/govc check $prop --repo $s --verif /verif --evidence-dir $evd 2>&1)
+    out=$(bin/govc check $prop --repo $s --verif $V --evidence-dir $evd 2>&1)
     if echo "$out" | grep "^  obligation" | grep -q -- "$want"; then echo "SELFTEST $name: $prop caught ($want)"; 
     elif echo "$out" | grep -q "^VIOLATION"; then echo "SELFTEST $name: $prop caught, but by another obligation: $(echo "$out" | grep -m1 '^  obligation' | cut -c1-160)"; 
     else echo "SELFTEST $name: $prop MISSED (wanted $want)"; fail=1; fi
